@@ -19,6 +19,15 @@ class BodyError(Exception):
     pass
 
 
+class NastyError(BodyError):
+    """A body failure that cannot even be printed."""
+
+    def __str__(self) -> str:
+        raise RuntimeError("no str() for this exception")
+
+    __repr__ = __str__
+
+
 class Falsy:
     """An item that is falsy, unhashable and compares equal to everything, None included."""
     __hash__ = None  # type: ignore[assignment]
@@ -61,7 +70,7 @@ def decode(data: bytes) -> dict:
             body = []
             for _ in range(d.i(0, 2)):
                 body.append(["wait"] if d.p(0.55) else ["yield", d.i(1, 3)])
-            prog["steps"].append({"op": "consumer", "body": body, "end": d.pick(["ret", "ret", "raise"]), "n": d.i(1, 2),
+            prog["steps"].append({"op": "consumer", "body": body, "end": d.pick(["ret", "ret", "raise", "ret", "raise", "raise-nasty"]), "n": d.i(1, 2),
                                   "swallow": d.p(0.1), "nested": d.p(0.15)})
         elif r < 46:
             prog["steps"].append({"op": "agen", "how": d.pick(["aclose", "aclose", "exhaust", "throw"])})
@@ -172,6 +181,10 @@ class QRun:
                     if spec["end"] == "raise":
                         self.labels.add("body:raised")
                         raise BodyError()
+                    if spec["end"] == "raise-nasty":
+                        self.labels.add("body:raised")
+                        self.labels.add("body:raised-unprintable")
+                        raise NastyError()
                 except asyncio.CancelledError:
                     if not self.teardown:
                         self.labels.add("cancel:inside-body")
@@ -388,7 +401,7 @@ def sweep_cases(tier: str) -> List[dict]:
     bodies = [[], [["yield", 1]], [["wait"]], [["yield", 2], ["wait"]]]
     for maxsize in (0, 1):
         for body in bodies:
-            for end in ("ret", "raise"):
+            for end in ("ret", "raise", "raise-nasty"):
                 for ncons in (1, 2):
                     for nput in (0, 1, 2, 3):
                         for put_first in (True, False):
